@@ -203,7 +203,44 @@ def rule_alpha(rep, d, dec, enc, helpers=()):
             if holder is not None and not any(unq(x.get("value", "")) == lit for x in lits):
                 lits.append({"kind": "StringLiteral", "value": '"%s"' % lit, "loc": holder.get("loc"), "range": holder.get("range")})
         if not lits:
-            rep.inconclusive("C13.alpha", fn["name"], "alphabet literal", detail="no alphabet literal found")
+            # the alphabet as a function of the sextet (`detail::base64_char(i)`): folded exactly for i = 0..63
+            from .. import ceval
+            done = False
+            seen_f = set()
+            for c in ir.walk_expr(fn):
+                if c.get("kind") != "CallExpr" or not ir.ekids(c):
+                    continue
+                callee = ir.strip(ir.ekids(c)[0])
+                g = d.by_id.get((callee.get("referencedDecl") or {}).get("id")) if callee.get("kind") == "DeclRefExpr" else None
+                if g is None or g.get("id") in seen_f or not ir.in_repo(g) or ir.body(g) is None or len(ir.params(g)) != 1:
+                    continue
+                rt = (g.get("type") or {}).get("qualType", "").split("(")[0].strip()
+                if rt not in ("char", "unsigned char", "const char") or trange.type_range(ir.qtype(ir.params(g)[0])) is None:
+                    continue
+                seen_f.add(g.get("id"))
+                pid = ir.params(g)[0].get("id")
+                ret, decls = ceval._single_return(g)
+                if ret is None or decls:
+                    rep.inconclusive("C13.alpha", fn["name"], "alphabet function %s" % g.get("name"), where=d.where(g), detail="not a single-return function")
+                    done = True
+                    continue
+                table = []
+                try:
+                    for i in range(64):
+                        table.append(ceval.ev(ir.ekids(ret)[0], ceval.Ctx(d, {pid: i})) & 0xFF)
+                except (ceval.Unknown, ceval.UB) as e:
+                    rep.inconclusive("C13.alpha", fn["name"], "alphabet function %s" % g.get("name"), where=d.where(g), detail="not foldable: %s" % e)
+                    done = True
+                    continue
+                done = True
+                diff = [i for i in range(64) if table[i] != ord(RFC[i])]
+                if diff:
+                    rep.violates("C13.alpha", fn["name"], "alphabet function %s" % g.get("name"), where=d.where(g),
+                                 detail="%s(%d) is %r, the RFC 4648 alphabet has %r there (folded for every sextet 0..63)" % (g.get("name"), diff[0], chr(table[diff[0]]), RFC[diff[0]]))
+                else:
+                    rep.holds("C13.alpha", fn["name"], "alphabet function %s" % g.get("name"), where=d.where(g), detail="folded for every sextet 0..63: the RFC 4648 alphabet")
+            if not done:
+                rep.inconclusive("C13.alpha", fn["name"], "alphabet literal", detail="no alphabet literal found")
         for i, l in enumerate(lits):
             v = unq(l.get("value"))
             if v == RFC:
